@@ -238,6 +238,21 @@ pub fn len_universe() -> ListUniverse {
             }
         }
     }
+    // UNKNOWN lines whose total length sits around powers of two and their sums with 107 (narrow-integer arithmetic)
+    for total in [120usize, 127, 128, 129, 200, 254, 255, 256, 257, 258, 300, 362, 363, 364, 365, 511, 512, 513, 619, 620, 1024, 4096, 32768, 65535, 65536, 65537, 65643] {
+        for pad in [b'p', b' '] {
+            let mut c = b("PROXY UNKNOWN ");
+            c.resize(total - 2, pad);
+            c.extend_from_slice(b"\r\n");
+            cases.push(c.clone());
+            c.extend_from_slice(b"GET /");
+            cases.push(c);
+        }
+        let mut c = b("PROXY TCP4 1.2.3.4 5.6.7.8 80 443");
+        c.resize(total - 2, b'4');
+        c.extend_from_slice(b"\r\n");
+        cases.push(c);
+    }
     // the longest valid TCP6 lines: 45-character addresses (embedded dotted quad) give lines of 100..=107 bytes
     let long6 = ["0000:0000:0000:0000:0000:ffff:192.168.100.200", "ffff:ffff:ffff:ffff:ffff:ffff:255.255.255.255", "ffff:ffff:ffff:ffff:ffff:ffff:ffff:ffff", "1234:5678:9abc:def0:1234:5678:100.100.100.100"];
     for a in long6 {
